@@ -27,6 +27,9 @@ var c14OptRows = map[string][]string{
 	"bytes":  {"--generateByteVersions=*"},
 	"random": {"--generateRandomCode"},
 	"rpc":    {"--generateRPCCode"},
+	// TL2-origin input: a .tl2 file next to the TL1 prelude, without and with a TL2 whitelist
+	"tl2file":   {},
+	"tl2filewl": {"--tl2WhiteList=*"},
 }
 
 type c14Stim struct {
@@ -46,6 +49,7 @@ func c14Cfg(maxCombs, maxFields int, ns, nameMenu, fieldNames, kinds, maskBits, 
 
 func c14CfgF(maxCombs, maxFields int, ns, nameMenu, fieldNames, kinds, maskBits, tagKinds, muts, optRows, funcNames string) map[string]string {
 	return map[string]string{
+		"UNIONMENU": "MCUnionMenu",
 		"FUNCNAMES": funcNames,
 		"MAXCOMBS":  fmt.Sprint(maxCombs), "MAXFIELDS": fmt.Sprint(maxFields), "NAMESPACES": ns, "NAMEMENU": nameMenu,
 		"FIELDNAMES": fieldNames, "KINDS": kinds, "MASKBITS": maskBits, "TAGKINDS": tagKinds, "TL2": "FALSE",
@@ -58,8 +62,32 @@ func schemaKey(m *mSchema) string {
 	return m.Opt + "|" + string(b)
 }
 
+// sepCaseTwins: two combinators whose full constructor (or type) names become equal when the
+// namespace separator is dropped and case is ignored (ab.cd / abCd). Used only to prioritise stimuli.
+func sepCaseTwins(m *mSchema) bool { return len(twinNames(m)) > 0 }
+
+func twinNames(m *mSchema) []string {
+	var r []string
+	flat := func(ns, n string) string { return strings.ToLower(ns + n) }
+	for i := range m.Schema {
+		for j := i + 1; j < len(m.Schema); j++ {
+			a, b := &m.Schema[i], &m.Schema[j]
+			if a.ctorName() != b.ctorName() && flat(a.Ns, a.Cn) == flat(b.Ns, b.Cn) {
+				r = append(r, "twin-ctor:"+flat(a.Ns, a.Cn))
+			}
+			if a.Kind != "func" && b.Kind != "func" && a.typeName() != b.typeName() && flat(a.Ns, a.Tn) == flat(b.Ns, b.Tn) {
+				r = append(r, "twin-type:"+flat(a.Ns, a.Tn))
+			}
+		}
+	}
+	return r
+}
+
 func kindsOf(m *mSchema) []string {
 	set := map[string]bool{}
+	for _, t := range twinNames(m) {
+		set[t+":"+m.Schema[0].ctorName()+"+"+m.Schema[len(m.Schema)-1].ctorName()] = true
+	}
 	for _, c := range m.Schema {
 		set["c:"+c.Kind] = true
 		if len(c.Targs) > 0 {
@@ -67,6 +95,12 @@ func kindsOf(m *mSchema) []string {
 		}
 		if c.Tag.K != "none" {
 			set["t:"+c.Tag.K] = true
+		}
+		if c.TL2 {
+			set["tl2:"+c.Kind] = true
+			if c.Kind == "func" {
+				set["tl2:result-"+c.Res.K] = true
+			}
 		}
 		for _, f := range c.Fields {
 			set["f:"+f.K] = true
@@ -135,20 +169,40 @@ func runC14(c *core.Ctx) error {
 	}
 	c.Set("method_name_catalogue_states", len(catStims))
 
-	// 1c. exhaustive core configurations that cover the recursive / masked / dictionary shapes (A) and
-	// template declaration + instantiation with names differing only by namespace (B) deterministically
+	// 1c. exhaustive core configurations:
+	//  A recursive / masked / dictionary shapes; B template declaration + instantiation with names differing
+	//  only by namespace; S constructor / type / function names that differ only by "namespace separator vs
+	//  case" (ab.cd / abCd, a.bC / aB.c, ab.Cd / AbCd); T TL2-origin combinators (struct, function with
+	//  builtin / array / empty / struct result) without and with a TL2 whitelist
+	with := func(m map[string]string, kv ...string) map[string]string {
+		for i := 0; i+1 < len(kv); i += 2 {
+			m[kv[i]] = kv[i+1]
+		}
+		return m
+	}
+	type coreCfg struct {
+		name        string
+		consts      map[string]string
+		quick, thor int
+		prefer      func(m *mSchema) bool // kept before the cap is applied
+	}
 	var coreStims []mSchema
-	for ci, consts := range []map[string]string{
-		c14CfgF(1, 2, `{"a"}`, "MCNameMenuOne", "MCFieldNamesTiny", "MCKindsCore", "{0}", `{}`, "MCMutationsNone", `{"plain"}`, `{"get"}`),
-		c14CfgF(2, 1, `{"a", "b"}`, "MCNameMenuOne", "MCFieldNamesTiny", "MCKindsTmpl", "{0}", `{}`, "MCMutationsNone", `{"plain"}`, `{}`),
+	for _, cc := range []coreCfg{
+		{"A", c14CfgF(1, 2, `{"a"}`, "MCNameMenuOne", "MCFieldNamesTiny", "MCKindsCore", "{0}", `{}`, "MCMutationsNone", `{"plain"}`, `{"get"}`), 60, 1000, nil},
+		{"B", c14CfgF(2, 1, `{"a", "b"}`, "MCNameMenuOne", "MCFieldNamesTiny", "MCKindsTmpl", "{0}", `{}`, "MCMutationsNone", `{"plain"}`, `{}`), 40, 800, nil},
+		{"S", with(c14CfgF(2, 0, `{"", "ab", "a", "aB"}`, "MCNameMenuSep", "MCFieldNamesTiny", "MCKindsNone", "{0}", `{}`, "MCMutationsNone", `{"plain"}`, `{"abCd"}`),
+			"UNIONMENU", "MCUnionMenuNone"), 10, 1500, sepCaseTwins},
+		{"T", with(c14CfgF(2, 1, `{"x"}`, "MCNameMenuOne", "MCFieldNamesOne", "MCKindsInt", "{0}", `{}`, "MCMutationsNone", `{"tl2file", "tl2filewl"}`, `{"get"}`),
+			"UNIONMENU", "MCUnionMenuNone", "TL2", "TRUE"), 1000, 1000, nil},
 	} {
-		r, err := c.MustTLC(core.TLCOpts{Module: "MC_SchemaSpace", Cfg: "MC_SchemaSpace.cfg", Workers: 4, Timeout: 5 * time.Minute, Consts: consts})
+		r, err := c.MustTLC(core.TLCOpts{Module: "MC_SchemaSpace", Cfg: "MC_SchemaSpace.cfg", Workers: 4, Timeout: 5 * time.Minute, Consts: cc.consts})
 		if err != nil {
 			return err
 		}
 		c.Add("states", r.Distinct)
 		c.Add("transitions", r.Generated)
-		var pool []mSchema
+		c.Set("core_"+cc.name+"_states", r.Distinct)
+		var pool, pref []mSchema
 		for _, raw := range r.Emits {
 			var m mSchema
 			if err := json.Unmarshal(raw, &m); err != nil {
@@ -158,12 +212,17 @@ func runC14(c *core.Ctx) error {
 				continue
 			}
 			seen[schemaKey(&m)] = true
-			pool = append(pool, m)
+			if cc.prefer != nil && cc.prefer(&m) {
+				pref = append(pref, m)
+			} else {
+				pool = append(pool, m)
+			}
 		}
 		rng.Shuffle(len(pool), func(i, j int) { pool[i], pool[j] = pool[j], pool[i] })
-		if n := c.Pick(80, 800); ci == 1 && len(pool) > n {
+		if n := c.Pick(cc.quick, cc.thor); len(pool) > n {
 			pool = pool[:n]
 		}
+		coreStims = append(coreStims, pref...)
 		coreStims = append(coreStims, pool...)
 	}
 	c.Set("core_configurations_states", len(coreStims))
@@ -225,7 +284,7 @@ func runC14(c *core.Ctx) error {
 	c.Logf("TLC simulation: %d states checked, %d distinct schemas in %d strata (%v)", sim.Generated, nSim, len(strata), sim.Wall)
 
 	// 3. choose the stimuli
-	want := c.Pick(300, 2000)
+	want := c.Pick(150, 2000)
 	var stims []*c14Stim
 	rng.Shuffle(len(exhStims), func(i, j int) { exhStims[i], exhStims[j] = exhStims[j], exhStims[i] })
 	rng.Shuffle(len(catStims), func(i, j int) { catStims[i], catStims[j] = catStims[j], catStims[i] })
@@ -386,7 +445,7 @@ func runC14(c *core.Ctx) error {
 	// catalogue/exhaustive ones and a coverage-driven selection (every shape, every option row, every
 	// shape x option-row pair first, then seeded random) are compiled
 	acceptedAll := len(toBuild)
-	toBuild = c14SelectBuilds(toBuild, c.Pick(60, 500), rng)
+	toBuild = c14SelectBuilds(toBuild, c.Pick(70, 500), rng)
 	c.Set("accepted_selected_for_build", len(toBuild))
 	c.Set("accepted_not_compiled", acceptedAll-len(toBuild))
 	kindCover = map[string]int{}
@@ -423,6 +482,10 @@ func runC14(c *core.Ctx) error {
 			if name := methodCollision(out, &s.M); name != "" {
 				key = "build/field-name-collides-with-generated-method/" + name
 				reportedColl[name] = true
+			} else if name := nsNameCollision(out, &s.M); name != "" {
+				key = "build/go-name-collision-across-namespaces/" + name
+			} else if what := tl2NoWhitelist(out, s); what != "" {
+				key = "build/tl2-file-without-whitelist/" + what
 			}
 			c.Violate(key,
 				"tl2gen accepted the schema (exit 0) but the generated Go code does not build: "+tail(out, 900),
@@ -568,6 +631,51 @@ func methodCollision(buildOut string, m *mSchema) string {
 	}
 	sort.Strings(found)
 	return found[0]
+}
+
+var reRedeclared = regexp.MustCompile(`(\w+) redeclared in this block`)
+
+// nsNameCollision classifies a build failure: two combinators from different namespaces whose names
+// differ only by "namespace separator vs case" get the same Go identifier. Returns that identifier.
+func nsNameCollision(buildOut string, m *mSchema) string {
+	goName := func(ns, n string) string { return upperFirst(ns) + upperFirst(n) }
+	cnt := map[string]map[string]bool{}
+	for i := range m.Schema {
+		cb := &m.Schema[i]
+		for _, g := range []string{goName(cb.Ns, cb.Cn), goName(cb.Ns, cb.Tn)} {
+			if cnt[g] == nil {
+				cnt[g] = map[string]bool{}
+			}
+			cnt[g][cb.Ns] = true
+		}
+	}
+	var found []string
+	for _, mm := range reRedeclared.FindAllStringSubmatch(buildOut, -1) {
+		if len(cnt[mm[1]]) >= 2 {
+			found = append(found, mm[1])
+		}
+	}
+	if len(found) == 0 {
+		return ""
+	}
+	sort.Strings(found)
+	return found[0]
+}
+
+// tl2NoWhitelist classifies a build failure of a schema with TL2-declared combinators generated without
+// --tl2WhiteList: TL2 methods referenced but not generated. Returns the first missing method.
+func tl2NoWhitelist(buildOut string, s *c14Stim) string {
+	if s.TL2 == "" || len(c14OptRows[s.M.Opt]) != 0 || !strings.Contains(buildOut, "undefined") {
+		return ""
+	}
+	for _, meth := range []string{"InternalReadTL2", "ReadTL2", "InternalWriteTL2", "WriteTL2", "CalculateLayout"} {
+		for _, ln := range strings.Split(buildOut, "\n") {
+			if strings.Contains(ln, "undefined") && strings.Contains(ln, meth) {
+				return meth
+			}
+		}
+	}
+	return ""
 }
 
 var reBuildPkg = regexp.MustCompile(`(?m)^(?:# )?c14mod/(g\d+r?)[/ \n]`)
